@@ -183,9 +183,10 @@ class CanvasCache:
         with suppress(KeyError):
             del sizes[wcls, size, focus]
         if not sizes:
-            with contextlib.suppress(KeyError):
-                del cls._widgets[widget]
-                del cls._deps[widget]
+            # Dependants registered for this widget may have been built from a canvas of it that was never
+            # cached itself (a child that is not cacheable): forgetting them here would leave their canvases
+            # in the cache with nothing left to invalidate them.
+            cls.invalidate(widget)
 
     @classmethod
     def clear(cls) -> None:
